@@ -279,18 +279,11 @@ def variants(kind, rng, canons):
             sml["type_value_list_element"] = rng.choice(opts)
             return {}, ("SubmodelElementList", "typeValueListElement", "enum:abstract-class")
     elif kind == "literal":
-        tags = set()
-
-        def f(c):
-            for v in c.values():
-                if isinstance(v, list) and v and isinstance(v[0], str) and v[0] in c05_spec.LITERAL_STYLES \
-                        and len(v) >= 2 and not isinstance(v[1], (list, dict)):
-                    tags.add(v[0])
-        walk(canons, f)
+        tags = literal_tags(canons)
         if tags:
-            tag = rng.choice(sorted(tags))
+            tag = rng.choice(tags)
             style = rng.choice(c05_spec.LITERAL_STYLES[tag])
-            return {"literal_style": {tag: style}}, ("ValueDataType", "value", f"lexical:{c05_spec.xsd_name(tag) if tag[0].isupper() or tag in c05_spec.XSD_NAME else 'xs:' + tag}:{style}")
+            return {"literal_style": {tag: style}}, ("ValueDataType", "value", f"lexical:{xs_of_tag(tag)}:{style}")
     elif kind == "key-abstract":
         refs = collect(canons, lambda c: c["_class"] == "ExternalReference" and len(c["key"]) >= 3)
         if refs:
@@ -319,6 +312,47 @@ def variants(kind, rng, canons):
     return None, None
 
 
+def xs_of_tag(tag):
+    return c05_spec.xsd_name(tag) if tag[0].isupper() or tag in c05_spec.XSD_NAME else "xs:" + tag
+
+
+def literal_tags(canons):
+    tags = set()
+
+    def f(c):
+        for v in c.values():
+            if isinstance(v, list) and v and isinstance(v[0], str) and v[0] in c05_spec.LITERAL_STYLES \
+                    and len(v) >= 2 and not isinstance(v[1], (list, dict)):
+                tags.add(v[0])
+    walk(canons, f)
+    return sorted(tags)
+
+
+def matrix_store(rng):
+    """one submodel holding a Property for every value of the typed-value pools (every duration of SpecGen.durations(),
+    every decimal of SpecGen.DECIMALS, three values of each of the 30 DataTypeDefXsd types) and a BasicEventElement per
+    duration as minInterval / maxInterval: the writing and the reading oracle see every one of them on every run"""
+    import decimal
+    from basyx.aas import model
+    g = c05_spec.SpecGen(rng, strings="plain", depth=1)
+    values = [(model.datatypes.Duration, d) for d in g.durations()]
+    values += [(decimal.Decimal, decimal.Decimal(x)) for x in g.DECIMALS]
+    types = []
+    while len(types) < 200 and len(set(types)) < 30:
+        types.append(g.xsd_type())
+    for ty in sorted(set(types), key=lambda c: c.__name__):
+        if ty not in (model.datatypes.Duration, decimal.Decimal):
+            values += [(ty, aasgen.Gen.xsd_value(g, ty)) for _ in range(3)]
+    elems = [model.Property(f"p{n}", ty, v) for n, (ty, v) in enumerate(values)]
+    ref = model.ModelReference((model.Key(model.KeyTypes.SUBMODEL, "https://example.org/sm/observed"),), model.Submodel)
+    for n, d in enumerate(g.durations()):
+        elems.append(model.BasicEventElement(f"e{n}", ref, model.Direction.OUTPUT, model.StateOfEvent.ON,
+                                             min_interval=d, max_interval=d if n % 2 else None))
+    store = model.DictObjectStore()
+    store.add(model.Submodel("https://example.org/sm/typed-value-matrix", submodel_element=elems))
+    return store
+
+
 def read_back(fmt, data):
     if fmt == "json":
         from basyx.aas.adapter.json import read_aas_json_file
@@ -327,9 +361,9 @@ def read_back(fmt, data):
     return read_aas_xml_file(io.BytesIO(data), failsafe=False)
 
 
-def read_oracle(chk, judges, twin, t, rng, store, i):
+def read_oracle(chk, judges, twin, t, rng, store, i, every_style=False):
     """documents of the independent writer must be judged valid, be accepted by the strict readers and yield the
-    canonical form they were written from"""
+    canonical form they were written from.  every_style: one document per (literal type, spelling style) on top"""
     base = [c05_spec.norm(aasgen.canon(o)) for o in store]
     jobs = [(json.loads(json.dumps(base)), {}, None)]
     for kind in VARIANT_KINDS:
@@ -337,6 +371,11 @@ def read_oracle(chk, judges, twin, t, rng, store, i):
         knobs, vsig = variants(kind, rng, canons)
         if knobs is not None:
             jobs.append((canons, knobs, vsig))
+    if every_style:
+        for tag in literal_tags(base):
+            for style in c05_spec.LITERAL_STYLES[tag]:
+                jobs.append((json.loads(json.dumps(base)), {"literal_style": {tag: style}},
+                             ("ValueDataType", "value", f"lexical:{xs_of_tag(tag)}:{style}")))
     baseline_failed = set()
     for canons, knobs, vsig in jobs:
         canons = [c05_spec.norm(c) for c in canons]
@@ -401,7 +440,10 @@ def read_oracle(chk, judges, twin, t, rng, store, i):
                 else:
                     path = problem.partition(": ")[0]
                     attrs = [p.split("[")[0] for p in path.split("/") if p and not p.startswith("http")]
-                    s = f"C05:read:{fmt}:baseline:{'/'.join(attrs[-2:])}:{'raised' if problem.startswith('raised') else 'value'}"
+                    m = re.search(r": \['(\w+)', ", problem)
+                    leaf = f":{xs_of_tag(m.group(1))}" if m and m.group(1) in c05_spec.LITERAL_STYLES else ""
+                    s = (f"C05:read:{fmt}:baseline:{'/'.join(attrs[-2:])}:"
+                         f"{'raised' if problem.startswith('raised') else 'value'}{leaf}")
                 text = data if isinstance(data, str) else data.decode("utf-8")
                 chk.fail(s, f"a schema-valid {fmt.upper()} document of the independent writer is not read back as written "
                             f"({vsig or 'baseline'}): {problem}",
@@ -534,7 +576,7 @@ def write_oracle(chk, judges, twin, store, i, strings, t=None):
 def run(chk):
     rng = chk.rng
     quick = chk.tier == "quick"
-    n_store, n_jcases, n_xcases, n_read = (140, 220, 140, 40) if quick else (2400, 1800, 900, 700)
+    n_store, n_jcases, n_xcases, n_read = (140, 220, 140, 30) if quick else (2400, 1800, 900, 700)
     gen_ok = regenerate(chk)
     if gen_ok:
         ok = chk.theorems("props.C05", THEOREMS, VO)
@@ -572,6 +614,17 @@ def run(chk):
     except Exception as e:
         chk.tie_broken("schema-tables", f"{type(e).__name__}: {e}")
         return chk.finish(level="proof", rule="schema tables could not be built")
+
+    # ---------------------------------------------------------------- the typed-value matrix: every pool value, every run
+    try:
+        ms = matrix_store(rng)
+        chk.seen(("matrix", sorted(o.id for o in ms)))
+        chk.count("matrix:elements", sum(len(o.submodel_element) for o in ms))
+        write_oracle(chk, judges, twin, ms, -1, "typed-value matrix")
+        read_oracle(chk, judges, twin, t, rng, ms, -1, every_style=True)
+    except Exception:
+        import traceback
+        chk.tie_broken("typed-value-matrix", traceback.format_exc()[-1500:])
 
     # ---------------------------------------------------------------- writing oracle on whole stores
     jdocs, xdocs = [], []
